@@ -1,0 +1,32 @@
+//go:build verif
+
+package grace
+
+import "time"
+
+// VerifAge moves every recorded expectation d into the past, as if d had elapsed.
+func VerifAge(d time.Duration) {
+	e := DefaultGraceExpectations
+	e.Lock()
+	defer e.Unlock()
+	for _, actions := range e.controllerCache {
+		for a, t := range actions {
+			nt := t.Add(-d)
+			actions[a] = &nt
+		}
+	}
+}
+
+// VerifPending lists the recorded expectations as "key/action".
+func VerifPending() []string {
+	e := DefaultGraceExpectations
+	e.RLock()
+	defer e.RUnlock()
+	var out []string
+	for k, actions := range e.controllerCache {
+		for a := range actions {
+			out = append(out, k+"/"+string(a))
+		}
+	}
+	return out
+}
